@@ -51,7 +51,7 @@ func keep(d *m.Design) bool {
 func TestRequestRoundTrip(t *testing.T) {
 	n := rt.EnvInt("VERIF_CHECKS", 24)
 	seed := rt.EnvInt("VERIF_SEED", 1)
-	sess, built := rt.Prepare(t, "c02", rt.Options{Profile: gen.Request(), N: n, Seed: seed, Keep: keep, Extra: []*m.Design{gen.ParamMatrix(), gen.DefaultsMatrix(), gen.DefaultsBodyMatrix(), gen.NestMatrix(), gen.KindMatrix(), gen.MapParamsMatrix(), gen.WildcardMatrix(), gen.InheritMatrix()}})
+	sess, built := rt.Prepare(t, "c02", rt.Options{Profile: gen.Request(), N: n, Seed: seed, Keep: keep, Extra: []*m.Design{gen.ParamMatrix(), gen.DefaultsMatrix(), gen.DefaultsBodyMatrix(), gen.NestMatrix(), gen.KindMatrix(), gen.MapParamsMatrix(), gen.WildcardMatrix(), gen.InheritMatrix(), gen.GetBodyMatrix()}})
 	defer sess.Close()
 	defer rt.CloseAll(built)
 	if len(built) == 0 {
